@@ -215,6 +215,12 @@ class MatrixTheory:
         if m.flat:
             raise Unsupported('indexing a flattened matrix')
         elts = list(sl_node.elts) if isinstance(sl_node, ast.Tuple) else None
+        if elts and len(elts) == 3 and m.depth is not None and self._full(elts[1]) and self._full(elts[2]) and not isinstance(elts[0], ast.Slice):
+            # A[i, :, :] of a rank-3 array: block i (its w opaque rows)
+            i_ = as_int(self.ev(elts[0], st))
+            et_, n_, w_, data_ = self.mcell(m, st)
+            self.oblige(st, 'index', 'block-index-in-range', z3.And(i_ >= -n_, i_ < n_), node, raises='IndexError')
+            return self.rag_row(m, z3.If(i_ < 0, i_ + n_, i_), st)
         if elts and len(elts) == 2 and (self._full(elts[0]) or self._is_ellipsis(elts[0])) and not isinstance(elts[1], ast.Slice) and not self._is_ellipsis(elts[1]):
             v_ = self.ev(elts[1], st)
             if isinstance(v_, VList):
@@ -356,6 +362,23 @@ class MatrixTheory:
             elts = list(sl.elts)
             if elts and self._is_ellipsis(elts[-1]):
                 elts = elts[:-1]
+            if len(elts) == 3 and m.depth is not None and self._full(elts[1]) and not isinstance(elts[0], ast.Slice):
+                i0_ = self.ev(elts[0], st)
+                if isinstance(i0_, VInt) and self._full(elts[2]) and isinstance(val, VList):
+                    elts = [elts[0]]          # A[i, :, :] = block: the same as A[i] = block
+                elif isinstance(i0_, VInt) and not isinstance(elts[2], ast.Slice):
+                    # A[i, :, ids] = X: in block i, the columns ids of every row are replaced; rows are opaque: row' = set_cols(row, ids, X, s)
+                    ids_ = self.ev(elts[2], st)
+                    self.used('A[i, :, ids] = X (column update of one block; opaque row-wise operation set_cols)')
+                    self.oblige(st, 'index', 'block-index-in-range', z3.And(i0_.t >= 0, i0_.t < n), tgt, raises='IndexError')
+                    SC = z3.Function('set_cols', Elem, Elem, Elem, z3.IntSort(), Elem)
+                    idt = flatten('elem', ids_)[0] if isinstance(ids_, (VElem, VNone)) else z3.Const(fresh_name('ids'), Elem)
+                    vt = flatten('elem', val)[0] if isinstance(val, (VElem, VNone)) else z3.Const(fresh_name('val'), Elem)
+                    newrow = z3.Array(fresh_name('blk.rows'), z3.IntSort(), Elem)
+                    s_ = z3.Int(fresh_name('s'))
+                    st.assume(z3.ForAll([s_], z3.Implies(z3.And(s_ >= 0, s_ < w), newrow[s_] == SC(data[i0_.t][s_], idt, vt, s_))))
+                    st.heap.rags[m.ref] = RagCell(et, n, z3.K(z3.IntSort(), w), z3.Store(data, i0_.t, newrow))
+                    return True
             if len(elts) == 1:
                 i0_ = self.ev(elts[0], st)
                 if isinstance(i0_, VInt) and isinstance(val, VList):
